@@ -6,12 +6,12 @@ import vpcore as v
 from vprun import Run
 
 # factor sizes, in the order of spec/NegotiateDom.tla (kept in step by check_dom below)
-SIZES = [2, 3, 5, 5, 5, 6, 4, 4, 5, 7, 9, 9, 9, 4, 3, 3, 3, 2]
+SIZES = [2, 3, 5, 5, 5, 6, 4, 4, 5, 7, 9, 9, 9, 4, 3, 3, 3, 2, 2]
 NAMES = ["las", "peer", "lv4", "lv6", "lvpn4", "lhold", "lka", "lgr", "ras", "rhold", "rv4", "rv6", "rvpn4",
-         "rother", "rext", "rgr", "layout", "order"]
+         "rother", "rext", "rgr", "layout", "order", "bulk"]
 PEER, LHOLD, LKA, RHOLD = 1, 5, 6, 9
 ACCEPT = {PEER: [1, 2], RHOLD: [1, 4, 5, 6, 7]}          # configurations x OPENs that must come up
-BASE = [1, 1, 2, 1, 1, 1, 1, 1, 1, 6, 2, 1, 1, 1, 1, 1, 1, 1]
+BASE = [1, 1, 2, 1, 1, 1, 1, 1, 1, 6, 2, 1, 1, 1, 1, 1, 1, 1, 2]
 
 
 def domain(restrict=None):
@@ -90,6 +90,7 @@ def suites(tier, seed):
             nomp[i] = [1, 8]                      # no Multiprotocol capability for the family
         nomp[2], nomp[3], nomp[4] = [1, 2, 5], [1, 2], [1, 2]
         s["absentmp"] = product(nomp, [2, 3, 4, 10, 11, 12, 13], rng, acc)
+    demote(s)
     # no duplicates inside a suite
     for k in s:
         seen, rows = set(), []
@@ -99,6 +100,29 @@ def suites(tier, seed):
                 rows.append(r)
         s[k] = rows
     return s
+
+
+KEEP_KNOWN = 2
+
+
+def demote(s):
+    """Two confirmed defects (known_findings.jsonl) are triggered by whole classes of inputs. Every
+    rejected trace costs two extra TLC runs, so only the first KEEP_KNOWN triggering picks of a run
+    stay as they are (the findings remain visible in every run); in the others the triggering
+    factor is moved to a neighbouring value. The triggers are predicates over the INPUTS only:
+      KF-C08-gr-time-overflow: hold time 65535 configured and graceful restart enabled;
+      KF-C08-as2-overflow: bulk export towards a neighbour without 4-octet AS and Extended Message."""
+    kept = {"gr": 0, "as2": 0}
+    for name in sorted(s):
+        for r in s[name]:
+            if r[LHOLD] == 5 and r[7] != 1:
+                kept["gr"] += 1
+                if kept["gr"] > KEEP_KNOWN:
+                    r[7] = 1
+            if r[18] == 1 and r[8] in (2, 5) and r[14] == 1:
+                kept["as2"] += 1
+                if kept["as2"] > KEEP_KNOWN:
+                    r[18] = 2
 
 
 def expand(run, name, picks):
